@@ -214,6 +214,8 @@ class MultiTypeMap(dict):
         from .dependent import is_dependent
 
         self.clear()
+        self.errors.clear()
+        self.all.clear()
 
         obj_t_tup = sig.types
         entry = (handler, sig)
